@@ -22,6 +22,12 @@ CHECKS = {
     text="With the unimock feature on, generated exported mockable fns / modules / entraited traits (arity 0..5 over literal-matchable types biased to equal neighbours, sync/async, generic/impl/no_deps/concrete deps, same-signature module fns) are compiled and run: the API must be nameable as requested; a clause with the call's values in declared order answers while one with permuted values must not match; on Unimock::new_partial(()) the un-mocked call must equal the original fn called with &Unimock (result and trace with per-fn tags); concrete-deps fns and entraited traits must panic instead. 250 programs quick / 4000 thorough.",
     note="Parameter types are limited to what `matching!` can express as literals; unimock 0.6.8's own behaviour (each_call, new_partial, panics) is trusted.",
     design="§2 C11"),
+ "C12": dict(
+    technique="property-based testing of compile verdicts, positive and negative: model-derived Send/Output witnesses generic over the implementor, must-fail probes confirmed in isolation, differential run to completion, recorder inspection for async_trait",
+    engine="E2",
+    text="Generated async fn / module fn / entraited trait (static; dynamic with async_trait) / impl-block inputs over return types {omitted unit, owned, borrowed from argument, borrowed from deps/self, generic} x {default, ?Send}. Positive programs must compile and run: is_send on the method's future inside `fn w<D: Trait + Sync>`, exact Future::Output ascription, Rc-across-await bodies under ?Send, `&dyn Trait` for async_trait, awaited result equal to the direct call. Negative programs must be rejected (Rc across await without ?Send; is_send witness under ?Send) and are recompiled alone before being believed. Recorded expansions of async_trait inputs must keep `async fn` and carry the attribute on every generated trait/impl. 300 inputs (+ about 100 negative probes) quick / 5000 thorough.",
+    note="The input space is small by nature (a few hundred distinct programs); negative facts are sampled, not proved. async_trait's own `?Send` is outside the statement.",
+    design="§2 C12"),
  "C15": dict(
     technique="property-based testing + coverage-guided fuzzing of (attribute tokens, item) pairs; oracle: no panic, output parses, documented misuses get their own diagnostic",
     engine="E1+E3",
